@@ -129,7 +129,10 @@ def main(ctx):
     prog, info = load(CRATES)
     ctx.extra['mir'] = info
     ctx.bounds.append('%d entry points; every acyclic path with callee results unconstrained; loops unrolled as noted per obligation' % len(ENTRY))
-    ctx.outside += ['panics inside callees that are not inlined: serde_json, the third-party did_url_parser (its %XX index bug makes accessors of an accepted '
-                    'CoreDID panic - observed natively, DESIGN.md), url, time, flate2, roaring, prefix_hex, sd-jwt-payload',
+    ctx.outside += ['panics inside callees that are not inlined: serde_json, the third-party did_url_parser beyond its method-id cursor kernel, url, time, flate2, roaring, prefix_hex, sd-jwt-payload',
                     'entry points whose body is a serde derive or an async state machine not listed above', 'SD-JWT VC (feature not in the dumped configuration)', 'StatusList2021 get/set/entry/set_entry: decided under C12 on a precise list model (any length <= 2^60 bytes)']
     run(ctx, prog)
+    # the one third-party callee that is reachable with attacker-chosen text and whose MIR is small enough: the DID-URL parser's
+    # method-id phase (cursor inside the input <=> the accessors of an accepted DID cannot slice out of range); shared with C10
+    import c10
+    guarded(ctx, 'third-party parser cursor', 'M', lambda: c10.parser_cursor(ctx))
